@@ -9,6 +9,8 @@ reference tree has:
      file, is inlined at its call sites inside the file - parameters bound to the arguments, early returns turned
      into if/else, the result bound to the call's target - and its definition is dropped once nothing refers to it.
      The callers are then compared with the reference like any other edited function.
+  U  unrolled loops: a `for` over a literal display of up to four stable operands that the reference function does
+     not have (no break / continue / else, no closures) is unrolled with per-iteration names; V substitutes them.
   V  hoisted values: a local that the reference function does not have, bound exactly once by `v = E` with E free
      of effects, is substituted into its uses when nothing between the binding and the uses can change what E
      reads (no rebinding of a name in E; no store, mutating call or - for attributes that the file mutates
@@ -674,6 +676,9 @@ def _uses_allow_substitution(fn, def_st, E, loads) -> bool:
     object - every use only reads it (or there is a single use evaluated once per binding)."""
     pm = _parent_map(fn)
     fresh = one_shot = False
+    if isinstance(E, ast.Name):
+        # an alias: the expression IS the object (the caller has shown that the name is not rebound in between)
+        return True
     for x in ast.walk(E):
         if isinstance(x, (ast.List, ast.Dict, ast.Set, ast.ListComp, ast.DictComp, ast.SetComp)):
             fresh = True
@@ -863,6 +868,130 @@ def inline_new_locals(fn, ref_names: set[str], ref_sigs: set[str], mutated: set[
     return done
 
 
+
+# ------------------------------------------------------------------------------------------------ U  unrolled loops
+
+def _loop_heads(fn) -> set[str]:
+    return {_txt(x.target) + ' in ' + _txt(x.iter) for x in ast.walk(fn) if isinstance(x, (ast.For, ast.AsyncFor))}
+
+
+def _own_jumps(loop) -> bool:
+    """a break / continue that belongs to this loop (nested loops keep theirs)"""
+    stack = list(loop.body)
+    while stack:
+        x = stack.pop()
+        if isinstance(x, (ast.Break, ast.Continue)):
+            return True
+        if isinstance(x, (ast.For, ast.AsyncFor, ast.While)):
+            stack.extend(x.orelse)
+            continue
+        if isinstance(x, _SCOPES):
+            continue
+        stack.extend(ast.iter_child_nodes(x))
+    return False
+
+
+def _stable_operand(e, stored: set[str], stored_attrs: set[str]) -> bool:
+    """e reads the same object whenever it is evaluated inside the loop body"""
+    if isinstance(e, ast.Constant):
+        return True
+    if isinstance(e, ast.Name):
+        return e.id not in stored
+    if isinstance(e, ast.Attribute):
+        return e.attr not in stored_attrs and _stable_operand(e.value, stored, stored_attrs)
+    if isinstance(e, ast.UnaryOp) and isinstance(e.op, ast.USub):
+        return isinstance(e.operand, ast.Constant)
+    return False
+
+
+def _loaded_beyond(fn, loop, name) -> bool:
+    """is `name` read outside the loop after it (or anywhere in a loop that encloses it)?"""
+    inside = {id(x) for x in ast.walk(loop)}
+    end = max((getattr(x, 'lineno', 0) or 0 for x in ast.walk(loop)), default=loop.lineno)
+    outer = [x for x in _walk_scope(fn) if isinstance(x, (ast.For, ast.While, ast.AsyncFor)) and x is not loop
+             and any(y is loop for y in ast.walk(x))]
+    for x in _walk_scope(fn):
+        if isinstance(x, ast.Name) and x.id == name and isinstance(x.ctx, ast.Load) and id(x) not in inside:
+            if (getattr(x, 'lineno', 0) or 0) > end or any(any(y is x for y in ast.walk(o)) for o in outer):
+                return True
+    return False
+
+
+def unroll_new_display_loops(fn, ref_heads: set[str]) -> int:
+    """`for T in (e1, .., en): body`, a loop the reference function does not have, over a literal display of at most
+    four stable operands, without break / continue / else and without closures in the body: the same program as
+    `T1 = e1; body[T:=T1]; ...; Tn = en; body[T:=Tn]` (the display is evaluated before the first iteration, so the
+    operands must not be rebound or re-stored by the body).  Pass V then substitutes the per-iteration names."""
+    done = 0
+    for _ in range(8):
+        hit = None
+        for _, _, body in _blocks(fn):
+            for i, st in enumerate(body):
+                if not isinstance(st, ast.For) or st.orelse or not isinstance(st.iter, (ast.Tuple, ast.List)):
+                    continue
+                elts = st.iter.elts
+                if not (1 <= len(elts) <= 4) or _txt(st.target) + ' in ' + _txt(st.iter) in ref_heads:
+                    continue
+                if _own_jumps(st):
+                    continue
+                inner = [x for b in st.body for x in _preorder(b)]
+                if any(isinstance(x, (*_SCOPES, ast.Yield, ast.YieldFrom, ast.Await, ast.NamedExpr, ast.Global,
+                                      ast.Nonlocal)) for x in inner):
+                    continue
+                if isinstance(st.target, ast.Name):
+                    tnames = [st.target.id]
+                    rows = [[e] for e in elts]
+                elif isinstance(st.target, (ast.Tuple, ast.List)) and all(isinstance(t, ast.Name) for t in st.target.elts):
+                    tnames = [t.id for t in st.target.elts]
+                    if not all(isinstance(e, (ast.Tuple, ast.List)) and len(e.elts) == len(tnames) for e in elts):
+                        continue
+                    rows = [list(e.elts) for e in elts]
+                else:
+                    continue
+                if len(set(tnames)) != len(tnames):
+                    continue
+                stored = {x.id for x in inner if isinstance(x, ast.Name) and isinstance(x.ctx, (ast.Store, ast.Del))}
+                stored_attrs = {x.attr for x in inner if isinstance(x, ast.Attribute)
+                                and isinstance(x.ctx, (ast.Store, ast.Del))}
+                if any(isinstance(x, ast.Call) and isinstance(x.func, ast.Name) and x.func.id in ('setattr', 'delattr')
+                       for x in inner):
+                    continue
+                if not all(_stable_operand(e, stored | set(tnames), stored_attrs) for r in rows for e in r):
+                    continue
+                hit = (body, i, st, tnames, rows)
+                break
+            if hit:
+                break
+        if not hit:
+            break
+        body, i, st, tnames, rows = hit
+        unroll_new_display_loops.counter += 1
+        tag = unroll_new_display_loops.counter
+        new = []
+        last = {}
+        for k, row in enumerate(rows):
+            mp = {t: f'{t}__u{tag}_{k}' for t in tnames}
+            for t, e in zip(tnames, row):
+                new.append(ast.Assign(targets=[ast.Name(id=mp[t], ctx=ast.Store())], value=copy.deepcopy(e)))
+            for b in st.body:
+                new.append(_Rename(mp).visit(copy.deepcopy(b)))
+            last = mp
+        for t in tnames:
+            if _loaded_beyond(fn, st, t):
+                new.append(ast.Assign(targets=[ast.Name(id=t, ctx=ast.Store())],
+                                      value=ast.Name(id=last[t], ctx=ast.Load())))
+        nxt = getattr(body[i + 1], 'lineno', None) if i + 1 < len(body) else None
+        end = max((getattr(x, 'lineno', 0) or 0 for x in ast.walk(st)), default=st.lineno)
+        hi = nxt if nxt is not None and nxt > end else end + 1
+        _set_lines(new, st.lineno - 0.5, hi - 0.25)
+        body[i:i + 1] = new
+        done += 1
+    return done
+
+
+unroll_new_display_loops.counter = 0
+
+
 # ------------------------------------------------------------------------------------------------ entry point
 
 def prenormalise(tree, rel: str, R: dict):
@@ -881,6 +1010,12 @@ def prenormalise(tree, rel: str, R: dict):
         sg, fsg = alpha._rd(R, None, rel, q) or {}, alpha._rd(R, '__flat__', rel, q) or {}
         ref_names = set(sg) | set(fsg)
         ref_sigs = set(sg.values()) | set(fsg.values())
+        src = alpha._rd(R, '__src__', rel, q)
+        if src is not None and not isinstance(fn, ast.AsyncFunctionDef):
+            try:
+                n += unroll_new_display_loops(fn, _loop_heads(ast.parse(src)))
+            except SyntaxError:
+                pass
         n += inline_new_locals(fn, ref_names, ref_sigs, mutated)
     if n:
         tree = _Canon().visit(tree)
